@@ -166,6 +166,19 @@ pub fn sentence_strategy(allow_default_body: bool, exact_units: bool) -> impl St
             if let Some(e) = ez {
                 args.push(Arg::Easing(e));
             }
+            // every fourth sentence: values restated from one keyframe to the next (a "hold": the
+            // property stays put between two keyframes that say the same thing) - textually identical
+            let mut kfs = kfs;
+            if order[11] % 4 == 0 {
+                for i in 1..kfs.len() {
+                    let prev = kfs[i - 1].fields.clone();
+                    for f in kfs[i].fields.iter_mut() {
+                        if let Some(p) = prev.iter().find(|p| p.0 == f.0) {
+                            f.1 = p.1;
+                        }
+                    }
+                }
+            }
             for mut k in kfs {
                 if exact_units {
                     if let KfPos::Pct(l) = &k.pos {
